@@ -472,6 +472,21 @@ func genC07(tier string) []Case {
 		add(target, "zero", 0, expect, adopt, what+": replaced by zero")
 		if withOther {
 			add(target, "other", 0, expect, adopt, what+": replaced by the other nonce")
+			// a nonce that ends (begins) with a zero byte, echoed with its bytes moved one place: equal as a string of
+			// digits with the zeros stripped, not equal as a 128-bit value
+			for _, k := range []string{"shr8", "shl8"} {
+				add(target, k, 0, expect, adopt, what+": the same bytes moved by one place ("+k+"), the nonces drawn with a zero byte at that end")
+				c := &cs[len(cs)-1]
+				for _, h := range []*string{&c.Nonce, &c.ServerNonce} {
+					b := unhex(*h)
+					if k == "shr8" {
+						b[len(b)-1] = 0
+					} else {
+						b[0] = 0
+					}
+					*h = hx(b)
+				}
+			}
 		}
 	}
 	ctor := func(target string, names []string, what string) {
